@@ -5,12 +5,12 @@
 set -u
 WT=$1; D=$2; CRATES=${3:-"-p trippy-core -p trippy-packet"}
 cd "$WT" || exit 2
-git checkout -q -- . ; git clean -fdq -e target
+git checkout -q -- . ; git clean -fdq -e target -e OUT
 git apply "$D/patch.diff" || { echo "PATCH-DOES-NOT-APPLY"; exit 2; }
 if cargo test $CRATES --offline > /tmp/seed_suite.log 2>&1; then echo "suite-with-change: PASS"; else echo "suite-with-change: FAIL"; tail -5 /tmp/seed_suite.log; fi
 git apply "$D/demo.diff" || { echo "DEMO-DOES-NOT-APPLY"; }
 if cargo test $CRATES --offline > /tmp/seed_demo1.log 2>&1; then echo "demo-with-change: PASS (unexpected)"; else echo "demo-with-change: FAIL (expected)"; grep -E "^test .* FAILED|panicked" /tmp/seed_demo1.log | head -3; fi
-git checkout -q -- . ; git clean -fdq -e target
+git checkout -q -- . ; git clean -fdq -e target -e OUT
 git apply "$D/demo.diff"
 if cargo test $CRATES --offline > /tmp/seed_demo2.log 2>&1; then echo "demo-without-change: PASS (expected)"; else echo "demo-without-change: FAIL (unexpected)"; tail -5 /tmp/seed_demo2.log; fi
-git checkout -q -- . ; git clean -fdq -e target
+git checkout -q -- . ; git clean -fdq -e target -e OUT
